@@ -23,6 +23,10 @@ def apply(c):
             open spec fn wf_ok(&self) -> bool { self.0.wf_ok() }
             open spec fn wf_enc(&self) -> Seq<u8> { self.0.wf_enc() }
             open spec fn wf_dec(data: Seq<u8>, p: int, v: &Self, p2: int) -> bool { $w::wf_dec(data, p, &v.0, p2) }
+            open spec fn wf_cdec(data: Seq<u8>, p: int, v: &Self, p2: int) -> bool { $w::wf_cdec(data, p, &v.0, p2) }
+            open spec fn wf_canon(&self) -> bool { self.0.wf_canon() }
+            open spec fn wf_nocomp() -> bool { $w::wf_nocomp() }
+            proof fn lemma_rt(&self, pre: Seq<u8>) { self.0.lemma_rt(pre); }
 """)
     # parse of the wrapper: `.map(|n| $t(n))` needs the closure result to be known
     c.sub(rel, "$w::parse(data, position).map(|n| $t(n))", "$w::parse(data, position).map(|n| -> (r: $t<'a>) ensures r.0 == n { $t(n) })")
@@ -54,6 +58,15 @@ def apply(c):
                     RData::Empty(_) => true,
                 }
             }
+            /// a NULL / opaque record must not carry the code of a typed record, an empty record must not be OPT or carry an
+            /// Unknown(code of a typed record): such values re-parse as a different variant
+            open spec fn wf_canon(&self) -> bool {
+                match self {
+                    $( RData::$i(d) => d.wf_canon(), )+
+                    RData::NULL(c, d) => d.wf_canon() && (type_of_code(*c) == TYPE::NULL || type_of_code(*c) == TYPE::Unknown(*c)),
+                    RData::Empty(t) => *t != TYPE::OPT && type_of_code(code_of_type(*t)) == *t,
+                }
+            }
             open spec fn wf_enc(&self) -> Seq<u8> {
                 match self {
                     $( RData::$i(d) => d.wf_enc(), )+
@@ -75,6 +88,18 @@ def apply(c):
                     else { exists|p3: int| p + 10 <= p3 <= p2 && #[trigger] rdata_dec(d2, p + 10, ty, v, p3) }
                 })
             }
+            /// write_to emits only the RDATA: it decodes, as content of a record of this value's type, to the value
+            open spec fn wf_cdec(data: Seq<u8>, p: int, v: &Self, p2: int) -> bool {
+                if v is Empty { p2 == p } else if v is OPT { rdata_cdec_opt(data, p, v, p2) } else { rdata_dec(data, p, rdata_type(v), v, p2) }
+            }
+            open spec fn wf_nocomp() -> bool { false }
+            proof fn lemma_rt(&self, pre: Seq<u8>) {
+                match self {
+                    $( RData::$i(d) => { d.lemma_rt(pre); } )+
+                    RData::NULL(_, d) => { d.lemma_rt(pre); }
+                    RData::Empty(_) => {}
+                }
+            }
 """)
     c.sub(rel, "        fn parse_rdata<'a>(", """        /// the typed value `v` is what the decoder of record type `ty` reads at data[p..], stopping at p2
         pub open spec fn rdata_dec(data: Seq<u8>, p: int, ty: TYPE, v: &RData, p2: int) -> bool {
@@ -83,6 +108,9 @@ def apply(c):
                 RData::NULL(c, d) => (ty == TYPE::NULL || ty == TYPE::Unknown(*c)) && *c == code_of_type(ty) && NULL::wf_dec(data, p, d, p2),
                 RData::Empty(_) => false,
             }
+        }
+        pub open spec fn rdata_cdec_opt(data: Seq<u8>, p: int, v: &RData, p2: int) -> bool {
+            match v { RData::OPT(o) => OPT::wf_cdec(data, p, o, p2), _ => false }
         }
         /// ghost: type of the record as denoted by its variant / stored code
         pub open spec fn rdata_type(v: &RData) -> TYPE {
